@@ -41,11 +41,11 @@ func checkC09(c *km.Ctx) {
 	r.Assume = []string{"go/types + go/ssa model the source faithfully", "sync.Mutex provides mutual exclusion", "calling a method on a nil crypto.Signer interface panics before anything is signed"}
 
 	r.Rule("R-C09-1", "the signer family of RuntimeState is written only by the reviewed writers; in the loader the store of Signer is the last state write and no error return follows it", 3)
-	r.Rule("R-C09-2", "unsealCA: mutex held from entry to every return; already-unsealed test before decryption; load after successful decryption; ready-send only after successful load of a previously sealed server; channel buffered with two known senders; passphrase prompt fails fast on its second call", 4)
+	r.Rule("R-C09-2", "unsealCA: mutex held from entry to every return; already-unsealed test before decryption; load after successful decryption; ready-send only after successful load of a previously sealed server; channel buffered with two known senders; passphrase prompt fails fast on its second call; the posted passphrase reaches every decryption byte for byte", 4)
 	r.Rule("R-C09-3", "the injection handler reaches unsealCA only with r.TLS != nil and at least one verified chain", 1)
 	r.Rule("R-C09-4", "every signing/minting sink reachable from a service route is dominated by the sealed gate (or, for the two tabled routes, by a method call on the signer interface)", 7)
 	r.Rule("R-C09-5", "readyz answers 200 only on the unsealed edge", 1)
-	r.Rule("R-C09-6", "every successful signer load is followed by publication of the public keys before success is reported; publication considers every installed signer independently", 2)
+	r.Rule("R-C09-6", "every successful signer load is followed by publication of the public keys before success is reported; publication considers every installed signer independently, the list it walks holds every signer field, and the key-set endpoint skips none of the published keys", 2)
 
 	// ---------------- R-C09-1
 	type wsite struct {
